@@ -101,3 +101,177 @@ Example C15_nonvacuous :
   /\ splitax (B "a,b,,c") (B ",") = [B "a"; B "b"; []; B "c"]
   /\ hex_decode (B "4A6b") = Some (B "Jk") /\ slice_access 5 (-4) (-2) false = Some (1, 3).
 Proof. vm_compute. repeat split; reflexivity. Qed.
+
+(* ================================================================== codecs (ModelCodec.v) *)
+From Miller Require Import C15.ModelCodec C15.ProofsCodec C15.ModelHash C15.ProofsHash C15.ModelFmt C15.ProofsFmt.
+Open Scope N_scope.
+
+(* base64: inverse pair, ALL byte strings *)
+Theorem C15_base64_decode_encode : forall s, b64_decode (b64_encode s) = Some s.
+Proof. exact b64_decode_encode. Qed.
+Print Assumptions C15_base64_decode_encode.
+
+(* output length 4*ceil(n/3), alphabet A-Za-z0-9+/ and '=' *)
+Theorem C15_base64_encode_length : forall s, N.of_nat (List.length (b64_encode s)) = 4 * ((N.of_nat (List.length s) + 2) / 3).
+Proof. exact b64_encode_length. Qed.
+Print Assumptions C15_base64_encode_length.
+Theorem C15_base64_encode_alphabet : forall s, forallb b64_out_char (b64_encode s) = true.
+Proof. exact b64_encode_alphabet. Qed.
+Print Assumptions C15_base64_encode_alphabet.
+
+(* what the decoder accepts: (after CR/LF removal) a multiple of four characters, all from the alphabet or '=' ... *)
+Theorem C15_base64_decode_accepts_only :
+  forall s r, b64_decode s = Some r ->
+  N.of_nat (List.length (strip_crlf s)) mod 4 = 0 /\ forallb (fun c => b64_out_char c || is_crlf c) s = true.
+Proof. exact (fun s r H => conj (b64_decode_len4 s r H) (b64_decode_foreign s r H)). Qed.
+Print Assumptions C15_base64_decode_accepts_only.
+(* ... CR and LF are ignored wherever they stand ... *)
+Theorem C15_base64_decode_ignores_crlf : forall a c b, is_crlf c = true -> b64_decode (a ++ c :: b) = b64_decode (a ++ b).
+Proof. exact b64_decode_ignores_crlf. Qed.
+Print Assumptions C15_base64_decode_ignores_crlf.
+(* ... unpadded whole quanta give three bytes each *)
+Theorem C15_base64_decode_full_quanta :
+  forall s r, forallb is_b64 s = true -> b64_quanta s = Some r ->
+  N.of_nat (List.length s) = 4 * (N.of_nat (List.length r) / 3) /\ N.of_nat (List.length r) mod 3 = 0.
+Proof. exact b64_quanta_full_length. Qed.
+Print Assumptions C15_base64_decode_full_quanta.
+(* "decoding is injective on CR/LF-free text" is FALSE of the code (StdEncoding is not Strict()): QQ== and QR== both give "A" *)
+Theorem C15_base64_decode_injective_refuted :
+  exists s1 s2, s1 <> s2 /\ strip_crlf s1 = s1 /\ strip_crlf s2 = s2 /\ b64_decode s1 = b64_decode s2 /\ b64_decode s1 = Some (B "A").
+Proof. exact b64_decode_not_injective. Qed.
+Print Assumptions C15_base64_decode_injective_refuted.
+
+(* latin1 -> utf8 -> latin1 is the identity on ALL byte strings *)
+Theorem C15_latin1_utf8_latin1 : forall s, utf8_to_latin1 (latin1_to_utf8 s) = Some s.
+Proof. exact utf8_to_latin1_of_latin1_to_utf8. Qed.
+Print Assumptions C15_latin1_utf8_latin1.
+(* utf8_to_latin1 is an error exactly when some decoded character is above U+00FF (each invalid byte decodes to U+FFFD) *)
+Theorem C15_utf8_to_latin1_error_iff : forall s, utf8_to_latin1 s = None <-> existsb (fun r => 255 <? r) (runes s) = true.
+Proof. exact utf8_to_latin1_none. Qed.
+Print Assumptions C15_utf8_to_latin1_error_iff.
+(* otherwise: one byte per character, the byte value being the code point *)
+Theorem C15_utf8_to_latin1_result :
+  forall s o, utf8_to_latin1 s = Some o -> map code o = runes s /\ Z.of_nat (List.length o) = strlen s.
+Proof. exact utf8_to_latin1_some. Qed.
+Print Assumptions C15_utf8_to_latin1_result.
+(* NOT PROVED (full statement): forall s o, valid_utf8 s = true -> utf8_to_latin1 s = Some o -> latin1_to_utf8 o = s.
+   Missing: encode (runes s) = s for well-formed s.  Proved part: the identity on ASCII. *)
+Theorem C15_latin1_to_utf8_ascii_partial : forall s, forallb (fun c => (code c <? 128)) s = true -> latin1_to_utf8 s = s.
+Proof. exact latin1_to_utf8_ascii. Qed.
+Print Assumptions C15_latin1_to_utf8_ascii_partial.
+
+(* ================================================================== digests (ModelHash.v): structure only, no cryptographic claim *)
+Theorem C15_digest_padding_whole_blocks :
+  forall m, N.of_nat (List.length (pad_md5 m)) mod 64 = 0 /\ N.of_nat (List.length (pad_sha m)) mod 64 = 0
+            /\ N.of_nat (List.length (pad_sha512 m)) mod 128 = 0.
+Proof. exact (fun m => conj (pad_md5_blocks m) (conj (pad_sha_blocks m) (pad_sha512_blocks m))). Qed.
+Print Assumptions C15_digest_padding_whole_blocks.
+Theorem C15_digest_padding_minimal :
+  forall m, N.of_nat (List.length m) + 9 <= N.of_nat (List.length (pad_sha m)) < N.of_nat (List.length m) + 9 + 64
+         /\ N.of_nat (List.length m) + 9 <= N.of_nat (List.length (pad_md5 m)) < N.of_nat (List.length m) + 9 + 64
+         /\ N.of_nat (List.length m) + 17 <= N.of_nat (List.length (pad_sha512 m)) < N.of_nat (List.length m) + 17 + 128.
+Proof. exact (fun m => conj (pad_sha_minimal m) (conj (pad_md5_minimal m) (pad_sha512_minimal m))). Qed.
+Print Assumptions C15_digest_padding_minimal.
+(* the message is recoverable from the padded message (whatever the length field holds), hence padding is injective *)
+Theorem C15_digest_padding_recoverable :
+  forall m, unpad 8 (pad_md5 m) = m /\ unpad 8 (pad_sha m) = m /\ unpad 16 (pad_sha512 m) = m.
+Proof. exact (fun m => conj (unpad_md5 m) (conj (unpad_sha m) (unpad_sha512 m))). Qed.
+Print Assumptions C15_digest_padding_recoverable.
+Theorem C15_digest_padding_injective :
+  forall m m', (pad_md5 m = pad_md5 m' -> m = m') /\ (pad_sha m = pad_sha m' -> m = m') /\ (pad_sha512 m = pad_sha512 m' -> m = m').
+Proof. exact (fun m m' => conj (pad_md5_injective m m') (conj (pad_sha_injective m m') (pad_sha512_injective m m'))). Qed.
+Print Assumptions C15_digest_padding_injective.
+(* md5/sha1/sha256/sha512 texts: 32/40/64/128 lower-case hex characters, every input *)
+Theorem C15_digest_text_format :
+  forall s,
+  (List.length (md5 s) = 32 /\ List.length (sha1 s) = 40 /\ List.length (sha256 s) = 64 /\ List.length (sha512 s) = 128)%nat
+  /\ forallb is_lower_hex (md5 s) = true /\ forallb is_lower_hex (sha1 s) = true
+  /\ forallb is_lower_hex (sha256 s) = true /\ forallb is_lower_hex (sha512 s) = true.
+Proof. exact digest_text_format. Qed.
+Print Assumptions C15_digest_text_format.
+
+(* ================================================================== printf-style formatting (ModelFmt.v) *)
+(* fmtnum(z, "%d") reads back as z (signed decimal), every integer *)
+Theorem C15_fmtnum_d_roundtrip :
+  forall z txt, exists t, fmtnum (VInt z) txt (B "%d") = FOut t /\ parse_signed_dec t = Some z.
+Proof. exact fmtnum_d_roundtrip. Qed.
+Print Assumptions C15_fmtnum_d_roundtrip.
+(* fmtnum(z, "%x") of a non-negative integer reads back as z *)
+Theorem C15_fmtnum_x_roundtrip :
+  forall z txt, (0 <= z)%Z -> exists t, fmtnum (VInt z) txt (B "%x") = FOut t /\ parse_base 16 t 0 = Some (Z.to_N z).
+Proof. exact fmtnum_x_roundtrip. Qed.
+Print Assumptions C15_fmtnum_x_roundtrip.
+(* the digit text in any base 2..16, either case, reads back as the number *)
+Theorem C15_digits_text_roundtrip : forall b up u, 2 <= b -> b <= 16 -> parse_base b (digits_text b up u) 0 = Some u.
+Proof. exact parse_digits_text. Qed.
+Print Assumptions C15_digits_text_roundtrip.
+(* width: the result is max(width, natural length) long and only blanks are added, left or (flag -) right *)
+Theorem C15_fmt_integer_width_law :
+  forall sp z base up w, fwid sp = Some w -> (fprec sp = Some 0 -> z <> 0%Z) ->
+  let b := int_body sp (z <? 0)%Z (Z.abs_N z) base up in
+  blen (fmt_integer sp z base up) = Z.max (Z.of_N w) (blen b)
+  /\ fmt_integer sp z base up = (if fminus sp then b ++ repeat " "%char (Z.to_nat (Z.of_N w - blen b)) else repeat " "%char (Z.to_nat (Z.of_N w - blen b)) ++ b).
+Proof. exact fmt_integer_width. Qed.
+Print Assumptions C15_fmt_integer_width_law.
+(* %0Nd: sign, zeros up to the width, digits; nothing else *)
+Theorem C15_fmt_zero_padding_law :
+  forall (sp : spec) (negative : bool) (u base : N) (up : bool) (w : N),
+  fwid sp = Some w -> fprec sp = None -> fzero sp = true -> fminus sp = false -> fsharp sp = false ->
+  let ds := digits_text base up u in
+  let sg := if negative then ["-"%char] else if fplus sp then ["+"%char] else if fspace sp then [" "%char] else [] in
+  int_body sp negative u base up = sg ++ zeros (Z.of_N w - blen sg - blen ds) ++ ds
+  /\ blen (int_body sp negative u base up) = Z.max (Z.of_N w) (blen sg + blen ds).
+Proof. exact int_body_zero_padding. Qed.
+Print Assumptions C15_fmt_zero_padding_law.
+(* %.pf: the digits q satisfy |q/10^p - num/den| <= 1/2 * 10^-p (cross-multiplied), ties go to the even q;
+   num/den is the exact value of the binary64 argument (decode_bits, positive denominator) *)
+Theorem C15_fixed_precision_correctly_rounded :
+  forall p num den, 0 < den ->
+  (2 * Z.abs (Z.of_N (fixed_q p num den) * Z.of_N den - Z.of_N num * 10 ^ Z.of_N p) <= Z.of_N den)%Z.
+Proof. exact fixed_q_correctly_rounded. Qed.
+Print Assumptions C15_fixed_precision_correctly_rounded.
+Theorem C15_rounding_ties_to_even : forall a b, 0 < b -> 2 * (a mod b) = b -> N.even (round_div a b) = true.
+Proof. exact round_div_ties_even. Qed.
+Print Assumptions C15_rounding_ties_to_even.
+Theorem C15_decode_bits_denominator_positive : forall bits neg num den, decode_bits bits = Some (neg, num, den) -> 0 < den.
+Proof. exact decode_bits_den. Qed.
+Print Assumptions C15_decode_bits_denominator_positive.
+(* "text outside the directive is copied" is FALSE of the code: finding fmtnum-literal-text-mangled *)
+Theorem C15_fmtnum_copies_literal_text_refuted : fmtnum (VInt 17) (B "17") (B "old:%d") = FOut (B "od:17").
+Proof. exact fmtnum_literal_text_mangled. Qed.
+Print Assumptions C15_fmtnum_copies_literal_text_refuted.
+
+Example C15_nonvacuous_2 :
+  b64_encode (B "Ma") = B "TWE=" /\ b64_decode (B "TW
+Fu") = Some (B "Man") /\ b64_decode (B "TWE") = None
+  /\ utf8_to_latin1 (bs [195; 169]%N) = Some (bs [233]%N) /\ utf8_to_latin1 (bs [226; 130; 172]%N) = None /\ utf8_to_latin1 (bs [255]%N) = None
+  /\ (exists sp, parse_format (B "%-8d") = Some sp /\ fwid sp = Some 8 /\ fprec sp = None /\ fminus sp = true /\ fmt_integer sp (-17) 10 false = B "-17     ")
+  /\ (exists sp, parse_format (B "%+08d") = Some sp /\ fwid sp = Some 8 /\ fprec sp = None /\ fzero sp = true /\ fminus sp = false /\ fsharp sp = false
+                 /\ int_body sp false 17 10 false = B "+0000017")
+  /\ decode_bits 4612811918334230528%Z = Some (false, 5629499534213120, 2251799813685248)        (* 2.5 *)
+  /\ fixed_q 0 5 2 = 2 /\ fixed_q 0 7 2 = 4 /\ 2 * (5 mod 2) = 2
+  /\ fmtnum (VFloat 4612811918334230528%Z) (B "2.5") (B "%08.3lf") = FOut (B "0002.500")
+  /\ fmtnum (VFloat 4612811918334230528%Z) (B "2.5") (B "%.0f") = FOut (B "2")
+  /\ fmtnum (VFloat 4600877379321698714%Z) (B "0.4") (B "%.20f") = FOut (B "0.40000000000000002220")
+  /\ fmtnum (VInt 9007199254740993) (B "9007199254740993") (B "%.1le") = FOut (B "9.0e+15")
+  /\ fmtnum (VInt 17) (B "17") (B "%5d|") = FOut (B "%!d(string=   17)|") /\ fmtnum (VInt (-1)) (B "-1") (B "%x") = FOut (B "-1").
+Proof. vm_compute. repeat split; try reflexivity; eexists; repeat split; reflexivity. Qed.
+
+(* ================================================================== wrapper verbs (ModelVerbs.v) *)
+From Miller Require Import C15.ModelVerbs C15.ProofsVerbs.
+(* the verb is the function applied per selected field: entry i keeps its key; its value is the function of the old
+   value when the field is selected and the old value otherwise; the key sequence is unchanged *)
+Theorem C15_verb_is_function_per_field :
+  forall v r i k x, nth_error r i = Some (k, x) ->
+  nth_error (run_verb v r) i = Some (k, if verb_sel v k then verb_fun v x else x) /\ map fst (run_verb v r) = map fst r.
+Proof. exact run_verb_spec. Qed.
+Print Assumptions C15_verb_is_function_per_field.
+Theorem C15_verb_record_length : forall sel f r, List.length (map_values sel f r) = List.length r.
+Proof. exact map_values_length. Qed.
+Print Assumptions C15_verb_record_length.
+Example C15_nonvacuous_verbs :
+  run_verb (VSsub (Some [B "a"; B "c"]) (B ".") (B "X")) [(B "a", B "1.2.3"); (B "b", B "4.5"); (B "c", B "6")]
+    = [(B "a", B "1X2.3"); (B "b", B "4.5"); (B "c", B "6")]
+  /\ run_verb VUtf8ToLatin1 [(B "k", bs [195; 169]%N); (B "e", bs [226; 130; 172]%N)] = [(B "k", bs [233]%N); (B "e", B "(error)")]
+  /\ nth_error [(B "a", B "x"); (B "b", B "y")] 1 = Some (B "b", B "y").
+Proof. vm_compute. repeat split; reflexivity. Qed.
